@@ -1,13 +1,14 @@
 (* C01 — Deny by default: no permit without an applicable, satisfied permit rule.
    Statements only.  guard_eval models Guard._evaluate_core_async without the cache (C08 ties the
-   cache): environment construction (role resolver's answer `resolved`, strict flag), compiled
+   cache; the last section of this file composes the two: the statements through the cache, hits included): environment construction (role resolver's answer `resolved`, strict flag), compiled
    function / interpreter / set evaluator, built-in obligation checker, Decision.  rel is an
    arbitrary relationship oracle (any checker, or none).  tree_ok policy: every leaf policy of
    the (nested) set names a known algorithm or none and its rules' effects are permit/deny —
    implied by schema validity (C06). *)
 From Coq Require Import List Bool String.
 From Rbacx Require Import Value Cond Target Policy PolicySet Compiler Oblig Engine
-     PolicyProofs PolicySetProofs ObligProofs EngineProofs.
+     PolicyProofs PolicySetProofs ObligProofs EngineProofs
+     Cache CacheKey CacheGuard CacheGuardProofs CacheExplain.
 Import ListNotations.
 Local Open Scope string_scope.
 
@@ -77,3 +78,189 @@ Example c01_example :
   allowed_of (fst (guard_eval unit (relh_pure (fun _ => false)) builtin_oblig false c01_policy
                      (c01_req [("mfa", VBool true)]) None tt)) = Some true.
 Proof. vm_compute. split; reflexivity. Qed.
+
+(* ------------------------------------------------------------------ *)
+(* through the decision cache (C08 composed with the theorems above)    *)
+(* ------------------------------------------------------------------ *)
+Local Open Scope list_scope.   (* ++ is list append below *)
+(* Histories h of HEval w req | HSetPolicy w p | HClear w | HTick dt on one or two guards g1, g2
+   (w: false = first, true = second) that share ONE cache M, as in props/C08.v; run_cached answers,
+   per evaluation in order, (was it a hit, Decision | Raise | Ood).  A SITE of h is a decomposition
+   h = pre ++ HEval w req :: post; its answer is answer number [evals_in pre] (number of HEval in
+   pre).  [policy_at w pre g1 g2] = the policy guard w holds at that point: the argument of the last
+   HSetPolicy w _ in pre, else its initial policy; [guard_strict w g1 g2] = its type mode.
+   Hypotheses = those of c08_transparent_key_safe (cache meeting the C15 contract — the built-in LRU
+   with any capacity/TTL/clock does, c08_builtin_cache_meets_contract —, injective tags on the
+   history's policies, key-safe requests) + tree_ok of every policy of the history.  The policy
+   need not be assumed an object: a non-object policy never answers a Decision. *)
+
+(* what policy_at means *)
+Theorem c01_policy_at_is_last_set_policy : forall w pre g1 g2,
+  (forall a b p, pre = a ++ HSetPolicy w p :: b -> (forall q, ~ In (HSetPolicy w q) b) ->
+     policy_at w pre g1 g2 = p) /\
+  ((forall q, ~ In (HSetPolicy w q) pre) -> policy_at w pre g1 g2 = g_policy (if w then g2 else g1)).
+Proof. exact policy_at_spec. Qed.
+Print Assumptions c01_policy_at_is_last_set_policy.
+
+(* the engines without a cache: the answer at a site — Decision, raise or out-of-domain alike — is
+   guard_eval on the policy the evaluating guard holds at that point *)
+Theorem c01_uncached_history_answer : forall (relh : rel_query -> unit -> bool * unit)
+    (oblig : bool -> raw -> value -> option (bool * option string)) pre g1 g2 w req post,
+  nth_error (run_ref unit relh oblig (pre ++ HEval w req :: post) g1 g2 tt) (evals_in pre)
+  = Some (fst (guard_eval unit relh (oblig w) (guard_strict w g1 g2) (policy_at w pre g1 g2) req None tt)).
+Proof. exact run_ref_nth. Qed.
+Print Assumptions c01_uncached_history_answer.
+
+(* the engines with the cache: every answer (hit or miss) at a site is that same guard_eval *)
+Theorem c01_cached_history_answer :
+  forall (rel : rel_query -> bool) (T : Type) (tag : value -> T) (teqb : T -> T -> bool),
+  (forall a b, teqb a b = true <-> a = b) ->
+  forall (M : cache_impl T), contract T teqb M ->
+  forall (copying : bool) (g1 g2 : gcfg) (h : list hop),
+  tag_inj T tag (policies_all g1 g2 h) ->
+  (forall e, In e (envs_all g1 g2 h) -> key_safe e = true) ->
+  forall pre w req post hit o,
+  h = pre ++ HEval w req :: post ->
+  nth_error (snd (run_cached unit (relh_pure rel) T tag canon builtin_both M copying h (init unit T M g1 g2 tt)))
+            (evals_in pre) = Some (hit, o) ->
+  o = fst (guard_eval unit (relh_pure rel) builtin_oblig (guard_strict w g1 g2) (policy_at w pre g1 g2) req None tt).
+Proof. exact cached_answer_builtin. Qed.
+Print Assumptions c01_cached_history_answer.
+
+(* every answer of a cached run belongs to a site (sites with one answer number coincide: site_unique) *)
+Theorem c01_every_cached_answer_has_a_site :
+  forall (rel : rel_query -> bool) (T : Type) (tag : value -> T) (teqb : T -> T -> bool),
+  (forall a b, teqb a b = true <-> a = b) ->
+  forall (M : cache_impl T), contract T teqb M ->
+  forall (copying : bool) (g1 g2 : gcfg) (h : list hop),
+  tag_inj T tag (policies_all g1 g2 h) ->
+  (forall e, In e (envs_all g1 g2 h) -> key_safe e = true) ->
+  forall i a,
+  nth_error (snd (run_cached unit (relh_pure rel) T tag canon builtin_both M copying h (init unit T M g1 g2 tt))) i = Some a ->
+  exists pre w req post, h = pre ++ HEval w req :: post /\ evals_in pre = i.
+Proof. exact cached_answer_site_builtin. Qed.
+Print Assumptions c01_every_cached_answer_has_a_site.
+
+(* C01 through the cache: a permit answered by the cached engines — served from the cache or not —
+   has, in the policy the evaluating guard holds AT THAT TIME, an applicable non-deny rule whose
+   obligations are the ones returned and are not refused by the built-in checker *)
+Theorem c01_no_spurious_permit_cached :
+  forall (rel : rel_query -> bool) (T : Type) (tag : value -> T) (teqb : T -> T -> bool),
+  (forall a b, teqb a b = true <-> a = b) ->
+  forall (M : cache_impl T), contract T teqb M ->
+  forall (copying : bool) (g1 g2 : gcfg) (h : list hop),
+  tag_inj T tag (policies_all g1 g2 h) ->
+  (forall p, In p (policies_all g1 g2 h) -> tree_ok p) ->
+  (forall e, In e (envs_all g1 g2 h) -> key_safe e = true) ->
+  forall pre w req post hit d,
+  h = pre ++ HEval w req :: post ->
+  nth_error (snd (run_cached unit (relh_pure rel) T tag canon builtin_both M copying h (init unit T M g1 g2 tt)))
+            (evals_in pre) = Some (hit, GDecision d) ->
+  d_allowed d = true ->
+  exists env rule eff,
+    build_env (guard_strict w g1 g2) req None = Some env /\
+    In rule (all_rules (policy_at w pre g1 g2)) /\ applicable rel rule env /\
+    rule_effect rule = Some eff /\ eff <> "deny" /\
+    d_obligations d = rule_obls rule /\
+    (forall ok ch, check "permit" (rule_obls rule) (get_key "context" env) = Ok (ok, ch) -> ok = true).
+Proof. exact no_spurious_permit_cached. Qed.
+Print Assumptions c01_no_spurious_permit_cached.
+
+(* the same, quantified over the answer list: EVERY permit in it has its site and its rule *)
+Theorem c01_every_cached_permit_explained :
+  forall (rel : rel_query -> bool) (T : Type) (tag : value -> T) (teqb : T -> T -> bool),
+  (forall a b, teqb a b = true <-> a = b) ->
+  forall (M : cache_impl T), contract T teqb M ->
+  forall (copying : bool) (g1 g2 : gcfg) (h : list hop),
+  tag_inj T tag (policies_all g1 g2 h) ->
+  (forall p, In p (policies_all g1 g2 h) -> tree_ok p) ->
+  (forall e, In e (envs_all g1 g2 h) -> key_safe e = true) ->
+  forall i hit d,
+  nth_error (snd (run_cached unit (relh_pure rel) T tag canon builtin_both M copying h (init unit T M g1 g2 tt))) i
+    = Some (hit, GDecision d) ->
+  d_allowed d = true ->
+  exists pre w req post,
+    h = pre ++ HEval w req :: post /\ evals_in pre = i /\
+    exists env rule eff,
+      build_env (guard_strict w g1 g2) req None = Some env /\
+      In rule (all_rules (policy_at w pre g1 g2)) /\ applicable rel rule env /\
+      rule_effect rule = Some eff /\ eff <> "deny" /\
+      d_obligations d = rule_obls rule /\
+      (forall ok ch, check "permit" (rule_obls rule) (get_key "context" env) = Ok (ok, ch) -> ok = true).
+Proof. exact every_cached_permit_explained. Qed.
+Print Assumptions c01_every_cached_permit_explained.
+
+(* ... with DefaultInMemoryCache(maxsize = cap): any capacity; TTLs and clock advances are in g1, g2, h *)
+Theorem c01_no_spurious_permit_cached_lru :
+  forall (rel : rel_query -> bool) (T : Type) (tag : value -> T) (teqb : T -> T -> bool),
+  (forall a b, teqb a b = true <-> a = b) ->
+  forall (cap : BinNums.Z) (g1 g2 : gcfg) (h : list hop),
+  tag_inj T tag (policies_all g1 g2 h) ->
+  (forall e, In e (envs_all g1 g2 h) -> key_safe e = true) ->
+  (forall p, In p (policies_all g1 g2 h) -> tree_ok p) ->
+  forall pre w req post hit d,
+  h = pre ++ HEval w req :: post ->
+  nth_error (snd (run_cached unit (relh_pure rel) T tag canon builtin_both (lru_cache T teqb cap) false h
+                    (init unit T (lru_cache T teqb cap) g1 g2 tt))) (evals_in pre) = Some (hit, GDecision d) ->
+  d_allowed d = true ->
+  exists env rule eff,
+    build_env (guard_strict w g1 g2) req None = Some env /\
+    In rule (all_rules (policy_at w pre g1 g2)) /\ applicable rel rule env /\
+    rule_effect rule = Some eff /\ eff <> "deny" /\
+    d_obligations d = rule_obls rule /\
+    (forall ok ch, check "permit" (rule_obls rule) (get_key "context" env) = Ok (ok, ch) -> ok = true).
+Proof. exact no_spurious_permit_cached_lru. Qed.
+Print Assumptions c01_no_spurious_permit_cached_lru.
+
+(* no rule of the policy held at that time applies: the cached engines deny *)
+Theorem c01_nothing_applies_denies_cached :
+  forall (rel : rel_query -> bool) (T : Type) (tag : value -> T) (teqb : T -> T -> bool),
+  (forall a b, teqb a b = true <-> a = b) ->
+  forall (M : cache_impl T), contract T teqb M ->
+  forall (copying : bool) (g1 g2 : gcfg) (h : list hop),
+  tag_inj T tag (policies_all g1 g2 h) ->
+  (forall p, In p (policies_all g1 g2 h) -> tree_ok p) ->
+  (forall e, In e (envs_all g1 g2 h) -> key_safe e = true) ->
+  forall pre w req post hit d env,
+  h = pre ++ HEval w req :: post ->
+  nth_error (snd (run_cached unit (relh_pure rel) T tag canon builtin_both M copying h (init unit T M g1 g2 tt)))
+            (evals_in pre) = Some (hit, GDecision d) ->
+  build_env (guard_strict w g1 g2) req None = Some env ->
+  (forall rule, In rule (all_rules (policy_at w pre g1 g2)) -> ~ applicable rel rule env) ->
+  d_allowed d = false /\ d_effect d = "deny".
+Proof. exact nothing_applies_denies_cached. Qed.
+Print Assumptions c01_nothing_applies_denies_cached.
+
+(* non-vacuity (theories/CacheExplain.v, DefaultInMemoryCache(4), tags = key-sorted policy): history xh =
+   evaluate; the same again; set_policy(pol_mfa); the same; with context.mfa; that one again *)
+Example c01_cached_example_answers :
+  map summary xouts =
+  [(false, Some (true, Some "n1", "matched")); (true, Some (true, Some "n1", "matched"));
+   (false, Some (false, Some "o1", "obligation_failed"));
+   (false, Some (true, Some "o1", "matched")); (true, Some (true, Some "o1", "matched"))].
+Proof. vm_compute. reflexivity. Qed.
+Example c01_cached_example_hypotheses :
+  tag_inj value canon (policies_all xg xg xh) /\
+  (forall e, In e (envs_all xg xg xh) -> key_safe e = true) /\
+  (forall p, In p (policies_all xg xg xh) -> tree_ok p).
+Proof. exact x_hypotheses_hold. Qed.
+(* the two HITS are permits, and the theorem explains the first by a rule of pol_num (the policy held
+   before the set_policy) and the second by a rule of pol_mfa (the policy held after it) *)
+Example c01_cached_example_hits_are_permits :
+  (exists d, nth_error xouts 1 = Some (true, GDecision d) /\ d_allowed d = true) /\
+  (exists d, nth_error xouts 4 = Some (true, GDecision d) /\ d_allowed d = true).
+Proof. exact x_hits_are_permits. Qed.
+Example c01_cached_example_hits_explained :
+  (forall d, nth_error xouts 1 = Some (true, GDecision d) -> d_allowed d = true ->
+     exists env rule eff,
+       build_env false (xr []) None = Some env /\ In rule (all_rules pol_num) /\
+       applicable (fun _ => false) rule env /\ rule_effect rule = Some eff /\ eff <> "deny" /\
+       d_obligations d = rule_obls rule /\
+       (forall ok ch, check "permit" (rule_obls rule) (get_key "context" env) = Ok (ok, ch) -> ok = true)) /\
+  (forall d, nth_error xouts 4 = Some (true, GDecision d) -> d_allowed d = true ->
+     exists env rule eff,
+       build_env false (xr [("mfa", VBool true)]) None = Some env /\ In rule (all_rules pol_mfa) /\
+       applicable (fun _ => false) rule env /\ rule_effect rule = Some eff /\ eff <> "deny" /\
+       d_obligations d = rule_obls rule /\
+       (forall ok ch, check "permit" (rule_obls rule) (get_key "context" env) = Ok (ok, ch) -> ok = true)).
+Proof. exact x_hits_explained. Qed.
